@@ -21,7 +21,7 @@ func TestMain(m *testing.M) {
 			"reference their constant as a global, default argument, closure variable, nested def, lambda in a global, helper function, helper constant, "+
 			"flag value or another target) and a history of 4-14 operations: edits (source content/same content/revert, directory add/delete/rename/edit, "+
 			"constants within and across classes incl. 256..65535, body and helper code, comments, docstrings, dependency edges, added/removed sources, "+
-			"deleted generated files, flag values, unrelated files) interleaved with builds of arbitrary sub-targets (in process on a fresh Load or in a "+
+			"deleted generated files, flag values, unrelated files) interleaved with builds of arbitrary sub-targets (in process on a fresh Load, on the history's long-lived Project by Reload + Run as watch mode does, or in a "+
 			"fresh child process; normal, always, dry, with a chosen body of the closure failing, or interrupted: the child process dies at the n-th hit of one of 12 named points inside bodies, record writes and the index write) and load-only operations (with or without the index). Every body writes a digest of all its inputs. Oracle: after every "+
 			"build that reports success for X, the output and generated files of every target in X's closure (computed from the spec) are byte-equal to "+
 			"those of a from-scratch build of a copy of the same tree; no body ran twice in one build. Non-trivial = a successful build whose closure had "+
@@ -62,10 +62,10 @@ func exec(c Case) (v ev.Verdict) {
 	defer sim.Close()
 	m := sim.M
 
-	dirty := map[int]bool{}   // targets with a pending net input change
-	hardDirty := false        // pending change came from a hard edit class
-	interleaved := false      // a partial / failed / dry / interrupted build happened while something was dirty
-	crashedSince := false     // a build was interrupted and no successful build has been checked since
+	dirty := map[int]bool{} // targets with a pending net input change
+	hardDirty := false      // pending change came from a hard edit class
+	interleaved := false    // a partial / failed / dry / interrupted build happened while something was dirty
+	crashedSince := false   // a build was interrupted and no successful build has been checked since
 	classes := map[string]bool{}
 	for n, op := range c.Ops {
 		if op.Kind == "load" {
@@ -120,6 +120,9 @@ func exec(c Case) (v ev.Verdict) {
 		if op.Child || op.Crash != "" {
 			res = sim.ChildBuild(req)
 			classes["build:child"] = true
+		} else if op.Watch && !op.Dry {
+			res = sim.WatchBuild(req)
+			classes["build:watch-reload"] = true
 		} else {
 			res = sim.Build(req)
 		}
@@ -269,6 +272,8 @@ func gen(t *rapid.T) Case {
 			b := projsim.GenBuild(t, true, true, run.Tier == "thorough")
 			if rapid.IntRange(0, 7).Draw(t, "interrupt") == 5 {
 				b = projsim.GenCrash(t, b)
+			} else if !b.Child && rapid.IntRange(0, 3).Draw(t, "watch") == 3 {
+				b.Watch = true
 			}
 			ops = append(ops, b)
 		}
